@@ -1,0 +1,62 @@
+//go:build verif
+
+package aggsender
+
+import (
+	"context"
+	"time"
+
+	"github.com/agglayer/aggkit/agglayer"
+	"github.com/agglayer/aggkit/aggsender/config"
+	"github.com/agglayer/aggkit/aggsender/db"
+	"github.com/agglayer/aggkit/aggsender/statuschecker"
+	"github.com/agglayer/aggkit/aggsender/types"
+	aggkitcommon "github.com/agglayer/aggkit/common"
+	aggkitcfgtypes "github.com/agglayer/aggkit/config/types"
+	"github.com/agglayer/aggkit/log"
+)
+
+// Hooks for the verification harness (build tag verif): thin wrappers, no logic of their own.
+
+// VerifNew assembles an AggSender from caller-supplied parts exactly as New does after it has built them
+// (real status checker, real rate limiter); no clients, syncers or compatibility check are created.
+func VerifNew(logger *log.Logger, cfg config.Config, storage db.AggSenderStorage,
+	aggLayerClient agglayer.AgglayerClientInterface, epochNotifier types.EpochNotifier,
+	flow types.AggsenderFlow, l2OriginNetwork uint32) *AggSender {
+	return &AggSender{
+		cfg:               cfg,
+		log:               logger,
+		storage:           storage,
+		aggLayerClient:    aggLayerClient,
+		epochNotifier:     epochNotifier,
+		status:            &types.AggsenderStatus{Status: types.StatusNone},
+		flow:              flow,
+		rateLimiter:       aggkitcommon.NewRateLimit(cfg.MaxSubmitCertificateRate),
+		l2OriginNetwork:   l2OriginNetwork,
+		certStatusChecker: statuschecker.NewCertStatusChecker(logger, storage, aggLayerClient, l2OriginNetwork),
+	}
+}
+
+// VerifStartChecks runs what Start runs before the send loop (the status checker's initial reconciliation,
+// which returns once it succeeded or ctx is done, then the flow's own check).
+func (a *AggSender) VerifStartChecks(ctx context.Context) error {
+	a.certStatusChecker.CheckInitialStatus(ctx, a.cfg.DelayBetweenRetries.Duration, a.status)
+	if ctx.Err() != nil {
+		return ctx.Err()
+	}
+	return a.flow.CheckInitialStatus(ctx)
+}
+
+// VerifLastError is the last error recorded in the status object.
+func (a *AggSender) VerifLastError() string { return a.status.LastError }
+
+// VerifLoopOnce runs exactly one iteration of sendCertificates. With statusTick the periodic status arm is
+// the one that fires (the caller leaves the epoch channel empty); otherwise the caller has queued one epoch.
+func (a *AggSender) VerifLoopOnce(ctx context.Context, statusTick bool) {
+	if statusTick {
+		a.cfg.CheckStatusCertificateInterval = aggkitcfgtypes.NewDuration(time.Millisecond)
+	} else {
+		a.cfg.CheckStatusCertificateInterval = aggkitcfgtypes.NewDuration(0)
+	}
+	a.sendCertificates(ctx, 1)
+}
